@@ -216,10 +216,15 @@ def step (g : CommGuard) (s : State) (args : List String) : State × String :=
     match parseMsgs body with
     | none => (s, "bad-op")
     | some msgs =>
+      -- `implRes`: ok | fail (before or inside the ante chain, not by an Ethereum guard) | failguard | failexec (in message execution).
+      -- The Ethereum guards are the first decorators of the non-EVM chain: a tx they refuse can fail earlier only in basic
+      -- validation (`fail`), never reach message execution, and never be attributed to them when the model's guard accepts it.
+      let failOut := if implRes = "failexec" then "fail:exec" else "fail"
+      if ext ≠ "1" && !msgs.all guardEth then (s, if implRes = "fail" then "fail" else "fail:ethguard") else
       match deliver g s { evmExt := ext = "1", sigOk := sig = "1", msgs := msgs } with
-      | none => (s, "fail")                       -- must fail by a modelled rule
+      | none => (s, failOut)                      -- must fail by a modelled rule
       | some s' =>
-        if implRes = "fail" then (s, "fail")      -- rejected by the implementation for a reason outside the model
+        if implRes ≠ "ok" then (s, failOut)       -- rejected by the implementation for a reason outside the model
         else (s', s!"ok eth={s'.ethRuns - s.ethRuns + (s'.ethLegit - s.ethLegit)} VAL={renderVals s'}")
   | _ => (s, "bad-op")
 
